@@ -49,7 +49,7 @@ class C04(Property):
             return opts
         if r < 0.5:
             opts, names = gen.gen_options(rng, features=("alt", "adj", "cmd", "pos", "grp"), allow_catch=rng.random() < 0.5,
-                                          env_p=0.1)
+                                          env_p=0.25)
         elif r < 0.65:
             # nested adjacent groups and adjacent commands
             names = gen.Names(rng)
@@ -123,7 +123,17 @@ class C04(Property):
                         argv.insert(rng.randrange(len(argv) + 1), rng.choice(WEIRD))
                 elif m < 0.8:
                     argv = [rng.choice(WEIRD) for _ in range(rng.choice([1, 2, 5, 40]))]
-                cases.append(Case("%sp%d" % (gid, j), opts, argv, tags={"role": "parse", "group": gid}))
+                # the declared environment variables hold arbitrary byte strings (also when help is rendered: `[env:NAME = ..]`)
+                envd = gen.env_names(opts["p"])
+                env = []
+                if envd and rng.random() < 0.6:
+                    env = [(e.encode(), rng.choice([b"\xff\xfe", b"/var/\xff", b"", b"12", b"caf\xc3\xa9", b"x y"])) for e in envd
+                           if rng.random() < 0.7]
+                    if rng.random() < 0.5:
+                        argv = list(argv)
+                        argv.insert(rng.randrange(len(argv) + 1), rng.choice([b"--help", b"-h"]))
+                cases.append(Case("%sp%d" % (gid, j), opts, argv, env=env, unset=[e.encode() for e in envd if e.encode() not in [a for a, _ in env]],
+                                  tags={"role": "parse", "group": gid}))
                 if j < 2:
                     cases.append(Case("%st%d" % (gid, j), opts, argv, mode="twice", tags={"role": "twice", "group": gid}))
                 if j in (2, 3):
